@@ -20,6 +20,9 @@ package gcsca
 //@   ensures[C11] path != "keyManifest.textproto" ==> manifestWrites == old(manifestWrites)
 //@   ensures[C11] old(manifestWrites) == 0 ==> wroteAfterManifest == old(wroteAfterManifest)
 //@   ensures[C12] old(diskHas)[path] && !allowOverwrite(ctx) ==> objWrites == old(objWrites)
+// (an existing object is never silently kept in place of the data that should have been stored: outside --keep_going the
+// refusal to overwrite is an error, so no manifest entry is made for a certificate that was not stored)
+//@   ensures[C03,C11,C12] old(diskHas)[path] && !allowOverwrite(ctx) && !allowRecoverable(ctx) ==> err != nil
 //@   ensures[C12] !allowOverwrite(ctx) ==> clobbers == old(clobbers)
 
 // entriesStored: every manifest entry names an object present on the ghost disk.
